@@ -255,21 +255,21 @@ Theorem C11_rejects_decimal : forall f kv ty ns wh st d,
 Proof. exact exact_decimal. Qed.
 Print Assumptions C11_rejects_decimal.
 
-(** ... each listed violation makes the check fail: scale non-integer or negative; precision
+(** ... each listed violation makes the check fail (present = not null; booleans are no integers): scale non-integer or negative; precision
     non-integer or not positive; precision beyond floor(log10(2^(8*size-1))); scale above precision *)
 Theorem C11_decimal_scale_bad : forall parsed kv ty sc,
   jget "logicalType" parsed = Some (JStr "decimal") ->
-  jget "scale" parsed = Some sc -> truthy sc = true ->
-  (as_pyint sc = None \/ exists z, as_pyint sc = Some z /\ z < 0) ->
+  jget "scale" parsed = Some sc -> present sc = true ->
+  (as_jint sc = None \/ exists z, as_jint sc = Some z /\ z < 0) ->
   decimal_checks parsed kv ty = PErrParse.
 Proof. intros parsed kv ty sc L. now apply decimal_scale_bad. Qed.
 Print Assumptions C11_decimal_scale_bad.
 
 Theorem C11_decimal_precision_bad : forall parsed kv ty pr,
   jget "logicalType" parsed = Some (JStr "decimal") ->
-  (forall sc, jget "scale" parsed = Some sc -> truthy sc = true -> exists z, as_pyint sc = Some z /\ 0 <= z) ->
-  jget "precision" parsed = Some pr -> truthy pr = true ->
-  (as_pyint pr = None \/ exists z, as_pyint pr = Some z /\ z <= 0) ->
+  (forall sc, jget "scale" parsed = Some sc -> present sc = true -> exists z, as_jint sc = Some z /\ 0 <= z) ->
+  jget "precision" parsed = Some pr -> present pr = true ->
+  (as_jint pr = None \/ exists z, as_jint pr = Some z /\ z <= 0) ->
   decimal_checks parsed kv ty = PErrParse.
 Proof. intros parsed kv ty pr L. now apply decimal_precision_bad. Qed.
 Print Assumptions C11_decimal_precision_bad.
@@ -302,11 +302,11 @@ Theorem C11_decimal_checks_meaning : forall parsed kv ty,
   jget "logicalType" parsed = Some (JStr "decimal") -> decimal_checks parsed kv ty = POk tt ->
   let scale := attr_or_null "scale" parsed in
   let precision := attr_or_null "precision" parsed in
-  (truthy scale = true -> exists s, as_pyint scale = Some s /\ 0 <= s) /\
-  (truthy precision = true -> exists p, as_pyint precision = Some p /\ 0 < p /\
+  (present scale = true -> exists s, as_jint scale = Some s /\ 0 <= s) /\
+  (present precision = true -> exists p, as_jint precision = Some p /\ 0 < p /\
       (ty = JStr "fixed" -> exists sz size, jget "size" kv = Some sz /\ as_pyint sz = Some size /\ p <= max_precision size)) /\
-  (truthy scale = true -> truthy precision = true ->
-     forall s p, as_pyint scale = Some s -> as_pyint precision = Some p -> s <= p).
+  (present scale = true -> present precision = true ->
+     forall s p, as_jint scale = Some s -> as_jint precision = Some p -> s <= p).
 Proof. exact decimal_checks_ok. Qed.
 Print Assumptions C11_decimal_checks_meaning.
 
